@@ -12,6 +12,8 @@ Bad(c) ==
   ELSE IF MatchesEmptyIn(c.ast, c.s) # c.empty /\ ~c.empty THEN "empty"
   ELSE IF Has(c, "replaced") /\ (~RepOk(c.rep, 1, c.ngroups) \/ Replace(c.ast, c.s, c.rep) # c.replaced) THEN "replace"
   ELSE IF Has(c, "pieces") /\ Split(c.ast, c.s) # c.pieces THEN "split"
+  ELSE IF MatchesI(c.ast, c.s) # c.matches_i THEN "matches with flag i"
+  ELSE IF Has(c, "replaced_i") /\ ReplaceI(c.ast, c.s, <<120>>) # c.replaced_i THEN "replace with flag i"
   ELSE ""
 VARIABLE i
 Init == i \in 1..Len(Cases)
